@@ -92,7 +92,7 @@ class Ctx:
         r = tla.run_tlc(self.specdir(), module, cfg, **kw)
         self.log("tlc %s/%s: rc=%s generated=%d distinct=%d depth=%d %.1fs%s" % (
             module, cfg, r.rc, r.generated, r.distinct, r.depth, r.wall,
-            (" VIOLATION(model): " + r.violation) if r.violation else ""))
+            (" model-refuted: " + r.violation) if r.violation else ""))
         if r.timed_out:
             raise Infra("TLC timed out on %s/%s" % (module, cfg))
         if r.error:
